@@ -14,7 +14,12 @@
 // Streams: "main", "regression/trailing_action" and "regression/oversize" (bodies of
 // the three defect classes repaired by fixes/C15-bulk-response-accounting.diff: if
 // one of them comes back it is a VIOLATION with a concrete input) and
-// "known/store_failure" (the still open finding, see known/C15.json).
+// "known/store_failure" (the still open finding, see known/C15.json);
+// "after_other_ingest": the bulk request is served after requests of the OTHER log
+// ingest entry points of the same process (Splunk HEC, Loki, OTLP logs, the
+// single-document API, other bulk requests; accepted and rejected ones), which share
+// process-wide pools with HandleBulkBody: what they leave behind must not change what the
+// bulk request acknowledges and stores (model: SigM.BulkPool).
 package main
 
 import (
@@ -22,13 +27,19 @@ import (
 	"encoding/json"
 	"fmt"
 	"os"
+	"runtime"
 	"sort"
 	"strings"
 	"time"
 
+	"github.com/golang/snappy"
 	"github.com/siglens/siglens/pkg/ast/pipesearch"
 	"github.com/siglens/siglens/pkg/config"
 	eswriter "github.com/siglens/siglens/pkg/es/writer"
+	"github.com/siglens/siglens/pkg/integrations/loki"
+	lokilog "github.com/siglens/siglens/pkg/integrations/loki/log"
+	"github.com/siglens/siglens/pkg/integrations/splunk"
+	"github.com/siglens/siglens/pkg/otlp"
 	"github.com/siglens/siglens/pkg/segment/memory/limit"
 	"github.com/siglens/siglens/pkg/segment/query"
 	sutils "github.com/siglens/siglens/pkg/segment/utils"
@@ -36,6 +47,13 @@ import (
 	serverutils "github.com/siglens/siglens/pkg/server/utils"
 	vtable "github.com/siglens/siglens/pkg/virtualtable"
 	log "github.com/sirupsen/logrus"
+	"github.com/valyala/fasthttp"
+	collogpb "go.opentelemetry.io/proto/otlp/collector/logs/v1"
+	commonpb "go.opentelemetry.io/proto/otlp/common/v1"
+	logpb "go.opentelemetry.io/proto/otlp/logs/v1"
+	resourcepb "go.opentelemetry.io/proto/otlp/resource/v1"
+	"google.golang.org/protobuf/proto"
+	"google.golang.org/protobuf/types/known/timestamppb"
 
 	"verifharness/vhlib"
 )
@@ -73,6 +91,79 @@ func search(index, tag string) (ids []string, err error) {
 		ids = append(ids, id)
 	}
 	return ids, err
+}
+
+// the fields of a JSON document as siglens names its columns: nested objects and arrays are flattened with
+// dots, null values have no column; ok=false for an empty object/array value (no rule asserted here)
+func flatten(prefix string, v interface{}, out map[string]interface{}) bool {
+	switch x := v.(type) {
+	case map[string]interface{}:
+		if len(x) == 0 && prefix != "" {
+			return false
+		}
+		for k, e := range x {
+			if !flatten(prefix+k+".", e, out) {
+				return false
+			}
+		}
+	case []interface{}:
+		if len(x) == 0 {
+			return false
+		}
+		for i, e := range x {
+			if !flatten(fmt.Sprintf("%s%d.", prefix, i), e, out) {
+				return false
+			}
+		}
+	case nil:
+	default:
+		out[strings.TrimSuffix(prefix, ".")] = v
+	}
+	return true
+}
+
+// "the document becomes searchable": the record found for a line holds that line's fields and no others
+func contentMismatch(line int, text string, hit map[string]interface{}) []failure {
+	var doc map[string]interface{}
+	dec := json.NewDecoder(strings.NewReader(text))
+	dec.UseNumber()
+	if dec.Decode(&doc) != nil {
+		return nil
+	}
+	want := map[string]interface{}{}
+	if !flatten("", doc, want) {
+		return nil
+	}
+	var foreign, missing, differs []string
+	for k := range hit {
+		if _, in := want[k]; !in {
+			foreign = append(foreign, k)
+		}
+	}
+	for k, w := range want {
+		h, in := hit[k]
+		if !in {
+			missing = append(missing, k)
+		} else if ws, isStr := w.(string); isStr {
+			if hs, _ := h.(string); hs != ws {
+				differs = append(differs, k)
+			}
+		}
+	}
+	sort.Strings(foreign)
+	sort.Strings(missing)
+	sort.Strings(differs)
+	var fs []failure
+	if len(foreign) > 0 {
+		fs = append(fs, failure{"bulk_stored_document_has_foreign_field", fmt.Sprintf("the record found for document line %d has the fields %v, which that line does not contain", line, foreign)})
+	}
+	if len(missing) > 0 {
+		fs = append(fs, failure{"bulk_stored_document_lacks_field", fmt.Sprintf("the record found for document line %d lacks the fields %v of that line", line, missing)})
+	}
+	if len(differs) > 0 {
+		fs = append(fs, failure{"bulk_stored_document_field_differs", fmt.Sprintf("the record found for document line %d has other string values than that line in the fields %v", line, differs)})
+	}
+	return fs
 }
 
 // all records of one index matching text with a timestamp in [start, end]
@@ -117,7 +208,9 @@ var indexNames = map[int]string{1: "c15a", 2: "c15b", 3: "c15c", 4: "c15d", 9: s
 	// names utils.IsSafePathComponent rejects (numbers >= 20), as they read after JSON unescaping
 	20: "<no _index>", 21: "", 22: ".", 23: "..", 24: "a/b", 25: "../x", 26: `a\b`,
 	// indexes that, after an ordinary first document, only ever receive documents without any field
-	5: "c15h1", 6: "c15h2", 7: "c15h3"}
+	5: "c15h1", 6: "c15h2", 7: "c15h3",
+	// indexes written by the other ingest entry points (stream after_other_ingest)
+	50: "c15p0", 51: "c15p1", 52: "c15p2", 60: "loki-index", 61: "otel-logs"}
 
 // 40+k: fresh index c15f<k> whose very first block holds only field-less documents
 func freshIdx(k int) int {
@@ -287,6 +380,202 @@ type bodyCase struct {
 	Lines    []lineSpec `json:"lines"`
 	FinalNL  bool       `json:"final_newline"`
 	BadIndex []int      `json:"unstorable_indexes,omitempty"`
+	Prelude  []preReq   `json:"earlier_requests,omitempty"` // served (after the pools were emptied) before the bulk request
+}
+
+// ---------- requests of the other ingest entry points ----------
+
+// one request served before the bulk request under test
+type preReq struct {
+	Proto  string `json:"protocol"`                    // splunk_hec | loki_json | loki_promtail | otlp_logs | es_single_doc | es_bulk
+	Idxs   []int  `json:"-"`                           // index number of every accepted document
+	Bad    int    `json:"failing_documents,omitempty"` // es_bulk: documents on which GetNewPLE fails
+	Reject bool   `json:"rejected,omitempty"`          // answered with an error AFTER the accepted documents were parsed
+	Body   string `json:"body"`                        // the request body (otlp_logs: a description of the protobuf message)
+	Want   int    `json:"expected_http_status"`
+	raw    []byte
+	gets   [][2]int // GetNewPLE calls in order: (index number, 1 = accepted)
+}
+
+var protoCoq = map[string]string{"splunk_hec": "PSplunkHec", "loki_json": "PLoki", "loki_promtail": "PLoki", "otlp_logs": "POtlpLogs", "es_single_doc": "PEsDoc", "es_bulk": "PBulk"}
+
+func mkPre(protocol string, idxs []int, bad int, reject bool) preReq {
+	p := preReq{Proto: protocol, Idxs: append([]int{}, idxs...), Bad: bad, Reject: reject, Want: 200}
+	doc := func(i int) string {
+		return fmt.Sprintf(`"id":"pre%d","g":"pre","timestamp":%d`, i, 1690000000000+int64(i))
+	}
+	for _, ix := range idxs {
+		p.gets = append(p.gets, [2]int{ix, 1})
+	}
+	switch protocol {
+	case "splunk_hec":
+		var sb strings.Builder
+		for i, ix := range idxs {
+			fmt.Fprintf(&sb, `{"index":"%s","event":"hec event %d",%s}`+"\n", indexNames[ix], i, doc(i))
+		}
+		if reject { // getPLE: "Index field should be a string", after the records before it were parsed
+			sb.WriteString(`{"index":7,"event":"the index is not a string"}` + "\n")
+			p.Want = 400
+		}
+		p.Body = sb.String()
+	case "loki_json":
+		var vals []string
+		for i := range idxs {
+			vals = append(vals, fmt.Sprintf(`["%d","loki line pre%d"]`, 1690000000000000000+int64(i), i))
+		}
+		if reject { // "Invalid line format", after the lines before it were parsed
+			vals = append(vals, `["1690000000000000000",5]`)
+			p.Want = 400
+		}
+		p.Body = `{"streams":[{"stream":{"job":"c15","g":"pre"},"values":[` + strings.Join(vals, ",") + `]}]}`
+	case "loki_promtail": // snappy-compressed protobuf push request
+		st := &lokilog.StreamAdapter{Labels: `{job="c15", g="pre"}`}
+		for i := range idxs {
+			st.Entries = append(st.Entries, &lokilog.EntryAdapter{Timestamp: timestamppb.New(time.UnixMilli(1690000000000 + int64(i))), Line: fmt.Sprintf("promtail line pre%d", i)})
+		}
+		pb, _ := proto.Marshal(&lokilog.PushRequest{Streams: []*lokilog.StreamAdapter{st}})
+		p.raw = snappy.Encode(nil, pb)
+		p.Body = fmt.Sprintf(`snappy(PushRequest{stream {job="c15", g="pre"}: %d entries})`, len(idxs))
+	case "otlp_logs":
+		req := &collogpb.ExportLogsServiceRequest{}
+		var desc []string
+		for i, ix := range idxs {
+			rl := &logpb.ResourceLogs{Resource: &resourcepb.Resource{}}
+			if ix != 61 {
+				rl.Resource.Attributes = []*commonpb.KeyValue{{Key: "siglensIndexName", Value: &commonpb.AnyValue{Value: &commonpb.AnyValue_StringValue{StringValue: indexNames[ix]}}}}
+			}
+			rl.ScopeLogs = []*logpb.ScopeLogs{{LogRecords: []*logpb.LogRecord{{TimeUnixNano: uint64(1690000000000+int64(i)) * 1000000, SeverityText: "INFO",
+				Body: &commonpb.AnyValue{Value: &commonpb.AnyValue_StringValue{StringValue: fmt.Sprintf("otlp record pre%d", i)}}}}}}
+			req.ResourceLogs = append(req.ResourceLogs, rl)
+			desc = append(desc, fmt.Sprintf("resource(index %s){1 log record}", indexNames[ix]))
+		}
+		p.raw, _ = proto.Marshal(req)
+		p.Body = "ExportLogsServiceRequest{" + strings.Join(desc, ", ") + "}"
+	case "es_single_doc":
+		if reject { // not JSON: refused before any document is parsed
+			p.Body, p.Want, p.Idxs, p.gets = `{"id":`, 400, nil, nil
+		} else {
+			p.Body = "{" + doc(0) + "}"
+		}
+	case "es_bulk":
+		var sb strings.Builder
+		for i, ix := range idxs {
+			fmt.Fprintf(&sb, `{"index":{"_index":"%s"}}`+"\n{%s}\n", indexNames[ix], doc(i))
+		}
+		for i := 0; i < bad; i++ {
+			fmt.Fprintf(&sb, `{"index":{"_index":"c15p0"}}`+"\n{%s,\"v\":\n", doc(100+i))
+			p.gets = append(p.gets, [2]int{50, 0})
+		}
+		p.Body = sb.String()
+	default:
+		panic(protocol)
+	}
+	if p.raw == nil {
+		p.raw = []byte(p.Body)
+	}
+	return p
+}
+
+func mkctx(body []byte, ctype string) *fasthttp.RequestCtx {
+	ctx := &fasthttp.RequestCtx{}
+	ctx.Request.Header.SetMethod("POST")
+	ctx.Request.Header.SetContentType(ctype)
+	ctx.Request.SetBody(body)
+	return ctx
+}
+
+// serves the request through the real entry point; "" or what went wrong
+func (p preReq) run() (herr string) {
+	defer func() {
+		if r := recover(); r != nil {
+			herr = fmt.Sprintf("%s request panicked: %v", p.Proto, r)
+		}
+	}()
+	var ctx *fasthttp.RequestCtx
+	switch p.Proto {
+	case "splunk_hec":
+		ctx = mkctx(p.raw, "application/json")
+		splunk.ProcessSplunkHecIngestRequest(ctx, 0)
+	case "loki_json":
+		ctx = mkctx(p.raw, "application/json")
+		loki.ProcessLokiLogsIngestRequest(ctx, 0)
+	case "loki_promtail":
+		ctx = mkctx(p.raw, "application/x-protobuf")
+		loki.ProcessLokiLogsIngestRequest(ctx, 0)
+	case "otlp_logs":
+		ctx = mkctx(p.raw, "application/x-protobuf")
+		otlp.ProcessLogIngest(ctx, 0)
+	case "es_single_doc":
+		ctx = mkctx(p.raw, "application/json")
+		ctx.SetUserValue("indexName", indexNames[50])
+		if len(p.Idxs) > 0 {
+			ctx.SetUserValue("indexName", indexNames[p.Idxs[0]])
+		}
+		eswriter.ProcessPutPostSingleDocRequest(ctx, false, 0)
+	case "es_bulk":
+		_, _, err := eswriter.HandleBulkBody(p.raw, nil, 0, 0, false)
+		if (err == nil) != (len(p.Idxs) > 0) {
+			return fmt.Sprintf("earlier es_bulk request: error %v with %d good documents", err, len(p.Idxs))
+		}
+		return ""
+	}
+	if st := ctx.Response.StatusCode(); st != p.Want {
+		return fmt.Sprintf("earlier %s request answered %d, expected %d: %s", p.Proto, st, p.Want, ctx.Response.Body())
+	}
+	return ""
+}
+
+// empties every sync.Pool of the process (two collections: the first one moves the pools to their victim caches)
+func purgePools() {
+	runtime.GC()
+	runtime.GC()
+}
+
+const afterSuffix = "_after_other_ingest"
+
+func preSummary(ps []preReq) string {
+	var out []string
+	for _, p := range ps {
+		t := fmt.Sprintf("%s(%d documents", p.Proto, len(p.Idxs))
+		if p.Bad > 0 {
+			t += fmt.Sprintf(", %d failing", p.Bad)
+		}
+		if p.Reject {
+			t += ", rejected"
+		}
+		out = append(out, t+")")
+	}
+	return strings.Join(out, ", ")
+}
+
+// the bulk request after the case's earlier requests.  The oracle is the one of every other stream; a
+// failure that the same body does NOT show when it is served alone (pools emptied) is the history's doing
+// and gets its own class <class>_after_other_ingest.
+func evaluate(c bodyCase) (obs observation, fails []failure, texts []string, lens []int, herr string) {
+	if len(c.Prelude) == 0 {
+		return evaluateCore(c)
+	}
+	purgePools()
+	for _, p := range c.Prelude {
+		if herr = p.run(); herr != "" {
+			return
+		}
+	}
+	obs, fails, texts, lens, herr = evaluateCore(c)
+	if herr != "" || len(fails) == 0 {
+		return
+	}
+	purgePools()
+	alone := c
+	alone.Prelude = nil
+	_, fs2, _, _, he2 := evaluateCore(alone)
+	for i := range fails {
+		if he2 == "" && !hasClass(fs2, fails[i].class) {
+			fails[i].class += afterSuffix
+			fails[i].detail = fmt.Sprintf("bulk request served after %s: %s (the same body served alone, pools emptied: no such failure)", preSummary(c.Prelude), fails[i].detail)
+		}
+	}
+	return
 }
 
 type observation struct {
@@ -310,7 +599,12 @@ func describe(c bodyCase, texts []string) interface{} {
 		}
 		ls = append(ls, t)
 	}
-	return map[string]interface{}{"stream": c.Stream, "body_lines": ls, "final_newline": c.FinalNL, "shapes": c.Lines}
+	d := map[string]interface{}{"stream": c.Stream, "body_lines": ls, "final_newline": c.FinalNL, "shapes": c.Lines}
+	if len(c.Prelude) > 0 {
+		d["earlier_requests_of_the_process"] = c.Prelude
+		d["note"] = "the process-wide pools are emptied (two garbage collections), the earlier requests are served in order, then the bulk body"
+	}
+	return d
 }
 
 func statusOf(item interface{}) int {
@@ -332,7 +626,7 @@ func statusOf(item interface{}) int {
 }
 
 // runs the real code on the case; returns observation, oracle failures, rendered lines
-func evaluate(c bodyCase) (obs observation, fails []failure, texts []string, lens []int, herr string) {
+func evaluateCore(c bodyCase) (obs observation, fails []failure, texts []string, lens []int, herr string) {
 	evalNo++
 	tag := fmt.Sprintf("k%d", evalNo)
 	for i, l := range c.Lines {
@@ -396,7 +690,7 @@ func evaluate(c bodyCase) (obs observation, fails []failure, texts []string, len
 		if unsafeIdx(ix) { // no such index can exist; anything stored anywhere shows in the search over "*"
 			continue
 		}
-		ids, err := search(indexNames[ix], tag)
+		hits, err := searchRange(indexNames[ix], "g="+tag, 1600000000000, 1700000000999)
 		if err != nil {
 			if ix == 9 { // the index that cannot exist
 				continue
@@ -404,7 +698,8 @@ func evaluate(c bodyCase) (obs observation, fails []failure, texts []string, len
 			herr = fmt.Sprintf("search in %s failed: %v", indexNames[ix], err)
 			return
 		}
-		for _, id := range ids {
+		for _, h := range hits {
+			id, _ := h["id"].(string)
 			var n int
 			if _, e := fmt.Sscanf(id, tag+"d%d", &n); e != nil || n < 0 || n >= len(c.Lines) {
 				obs.Stray = append(obs.Stray, indexNames[ix]+"/"+id)
@@ -412,6 +707,7 @@ func evaluate(c bodyCase) (obs observation, fails []failure, texts []string, len
 			}
 			obs.Found = append(obs.Found, [2]int{ix, n})
 			total++
+			fails = append(fails, contentMismatch(n, texts[n], h)...)
 		}
 	}
 	// documents without any field cannot carry the tag: {"timestamp":T} is found by its own T,
@@ -838,6 +1134,74 @@ func genFieldlessFirst(r *vhlib.Rng, k int) []bodyCase {
 	return []bodyCase{s1, s2}
 }
 
+// stream after_other_ingest: 1-3 requests of the other entry points, then a bulk body with more well-formed
+// writes than twice the documents of those requests (objects a request left in a pool - possibly more than
+// once - are drawn by the first GetNewPLE calls of the bulk request) and ordinary other actions in between
+func genPre(r *vhlib.Rng) preReq {
+	pick := func(from []int, n int) []int {
+		out := make([]int, n)
+		for i := range out {
+			out[i] = vhlib.Pick(r, from)
+		}
+		return out
+	}
+	switch p := r.Intn(10); {
+	case p < 4:
+		return mkPre("splunk_hec", pick([]int{50, 51, 52, 1, 2}, r.Range(1, 4)), 0, r.Chance(15))
+	case p < 5:
+		return mkPre("loki_json", pick([]int{60}, r.Range(1, 3)), 0, r.Chance(20))
+	case p < 6:
+		return mkPre("loki_promtail", pick([]int{60}, r.Range(1, 3)), 0, false)
+	case p < 8:
+		return mkPre("otlp_logs", pick([]int{61, 50, 51}, r.Range(1, 3)), 0, false)
+	case p < 9:
+		return mkPre("es_single_doc", pick([]int{50, 51, 1}, 1), 0, r.Chance(20))
+	default:
+		k, bad := r.Range(0, 3), r.Range(0, 2)
+		if k+bad == 0 {
+			bad = 1
+		}
+		return mkPre("es_bulk", pick([]int{50, 51, 3}, k), bad, false)
+	}
+}
+func genAfter(r *vhlib.Rng) bodyCase {
+	c := bodyCase{Stream: "after_other_ingest", FinalNL: r.Chance(75)}
+	docs := 0
+	for i := r.Range(1, 3); i > 0; i-- {
+		p := genPre(r)
+		c.Prelude = append(c.Prelude, p)
+		docs += len(p.gets)
+	}
+	nIdx := r.Range(1, 3)
+	for i := 0; i < 2*docs+2; i++ {
+		c.Lines = append(c.Lines, writeVerb(r, nIdx), goodDoc(r))
+		if r.Chance(20) {
+			c.Lines = append(c.Lines, someAction(r, nIdx, true)...)
+		}
+	}
+	c.Lines = append(c.Lines, closing(r, nIdx)...)
+	return c
+}
+func cornerAfter() []bodyCase {
+	ix, doc := mk("index", 1), mk("doc", 0)
+	body := func(n int) []lineSpec {
+		var ls []lineSpec
+		for i := 0; i < n; i++ {
+			ls = append(ls, ix, doc)
+		}
+		return ls
+	}
+	var out []bodyCase
+	for _, p := range []preReq{
+		mkPre("splunk_hec", []int{50}, 0, false), mkPre("splunk_hec", []int{50, 51, 50, 1}, 0, false), mkPre("splunk_hec", []int{50, 50}, 0, true),
+		mkPre("loki_json", []int{60, 60}, 0, false), mkPre("loki_json", []int{60}, 0, true), mkPre("loki_promtail", []int{60, 60}, 0, false), mkPre("otlp_logs", []int{61, 50}, 0, false),
+		mkPre("es_single_doc", []int{50}, 0, false), mkPre("es_single_doc", nil, 0, true),
+		mkPre("es_bulk", []int{50, 1}, 1, false), mkPre("es_bulk", nil, 2, false)} {
+		out = append(out, bodyCase{Stream: "after_other_ingest", Prelude: []preReq{p}, Lines: body(2*len(p.gets) + 2), FinalNL: true})
+	}
+	return out
+}
+
 // hand-written corner bodies, always run first
 func corner() []bodyCase {
 	ix, doc := mk("index", 1), mk("doc", 0)
@@ -902,6 +1266,22 @@ func coqCase(c bodyCase, lens []int, o observation) string {
 		vhlib.CoqList(items), vhlib.CoqBool(o.Errors), o.Processed, vhlib.CoqBool(o.AllFailed), vhlib.CoqList(found))
 }
 
+// the earlier requests as a history of SigM.BulkPool: the pools were emptied, then one request per entry
+// point with the documents handed to GetNewPLE (index, identity, accepted)
+func coqHist(ps []preReq) string {
+	parts := []string{"HGc"}
+	id := 1000
+	for _, p := range ps {
+		var docs []string
+		for _, g := range p.gets {
+			id++
+			docs = append(docs, fmt.Sprintf("(%d, %d, %s)", g[0], id, vhlib.CoqBool(g[1] == 1)))
+		}
+		parts = append(parts, fmt.Sprintf("P %s %s", protoCoq[p.Proto], vhlib.CoqList(docs)))
+	}
+	return vhlib.CoqList(parts)
+}
+
 // ---------- shrinking of an unexpected failure ----------
 
 func hasClass(fs []failure, class string) bool {
@@ -924,6 +1304,32 @@ func classDetail(fs []failure, class string) string {
 
 // greedy removal of lines while the same failure class persists; returns the smaller body and its own detail
 func shrink(c bodyCase, class, detail string) (bodyCase, string) {
+	// the earlier requests first: drop whole requests, then their documents one by one
+	for changed := true; changed && len(c.Prelude) > 0; {
+		changed = false
+		for i := 0; i < len(c.Prelude); i++ {
+			var cands [][]preReq
+			if len(c.Prelude) > 1 {
+				cands = append(cands, append(append([]preReq{}, c.Prelude[:i]...), c.Prelude[i+1:]...))
+			}
+			if p := c.Prelude[i]; len(p.Idxs)+p.Bad > 1 {
+				q := mkPre(p.Proto, p.Idxs, max(p.Bad-1, 0), p.Reject)
+				if p.Bad == 0 {
+					q = mkPre(p.Proto, p.Idxs[:len(p.Idxs)-1], 0, p.Reject)
+				}
+				cands = append(cands, append(append(append([]preReq{}, c.Prelude[:i]...), q), c.Prelude[i+1:]...))
+			}
+			for _, cand := range cands {
+				t := c
+				t.Prelude = cand
+				if _, fs, _, _, he := evaluate(t); he == "" && hasClass(fs, class) {
+					c, changed, detail = t, true, classDetail(fs, class)
+					i--
+					break
+				}
+			}
+		}
+	}
 	for changed := true; changed; {
 		changed = false
 		for i := 0; i < len(c.Lines) && len(c.Lines) > 1; i++ {
@@ -959,9 +1365,10 @@ func main() {
 	rng := vhlib.NewRng(cfg.Seed)
 	rMain, rT, rO, rS, rU := rng.Fork(), rng.Fork(), rng.Fork(), rng.Fork(), rng.Fork()
 	rF, rFF := rng.Fork(), rng.Fork()
-	nMain, nKnown, nUnsafe, nFieldless, nFresh := 230, 22, 70, 40, 3
+	rA := rng.Fork()
+	nMain, nKnown, nUnsafe, nFieldless, nFresh, nAfter := 230, 22, 70, 40, 3, 40
 	if cfg.Thorough() {
-		nMain, nKnown, nUnsafe, nFieldless, nFresh = 2400, 150, 500, 300, 10 // one process: flush+search get slower as the store grows (7200 bodies took 17 min)
+		nMain, nKnown, nUnsafe, nFieldless, nFresh, nAfter = 2400, 150, 500, 300, 10, 300 // one process: flush+search get slower as the store grows (7200 bodies took 17 min)
 	}
 	// prime c15h1..3: the first block of their segment holds an ordinary document
 	for ix := 5; ix <= 7; ix++ {
@@ -988,11 +1395,25 @@ func main() {
 	for k := 0; k < nFresh; k++ {
 		cases = append(cases, genFieldlessFirst(rFF, k)...)
 	}
+	// last: if an earlier request poisons a pool, the poison stays in the process (these cases empty the pools themselves)
+	cases = append(cases, cornerAfter()...)
+	for i := 0; i < nAfter; i++ {
+		cases = append(cases, genAfter(rA))
+	}
 
 	known := map[string]bool{"bulk_store_failure_reported_created": true}
 	reported := map[string]int{}
-	var coqCases []string
-	shard := 0
+	var coqCases, coqHistCases []string
+	shard, hshard := 0, 0
+	flushHist := func() {
+		if len(coqHistCases) == 0 {
+			return
+		}
+		defs := "Definition cases : list (list hev * list N * list line * obs) := " + vhlib.CoqListNL(coqHistCases) + ".\n"
+		sum.WriteCaseFile(cfg.Out, fmt.Sprintf("cases_bulk_hist_%d", hshard), "From SigM Require Import Base Bulk BulkPool BulkCheck.\n", defs, "check_hist cases 0", len(coqHistCases))
+		hshard++
+		coqHistCases = nil
+	}
 	flushShard := func() {
 		if len(coqCases) == 0 {
 			return
@@ -1012,6 +1433,13 @@ func main() {
 		acts := grammar(c.Lines, lens, c.FinalNL)
 		var key strings.Builder
 		nfail := 0
+		for _, p := range c.Prelude {
+			fmt.Fprintf(&key, "%s%v%d%v;", p.Proto, p.Idxs, p.Bad, p.Reject)
+			sum.Count("earlier_request/" + p.Proto)
+			if p.Reject {
+				sum.Count("earlier_request/" + p.Proto + "/rejected")
+			}
+		}
 		for _, l := range c.Lines {
 			fmt.Fprintf(&key, "%s%d,", l.Shape, l.Idx)
 		}
@@ -1080,12 +1508,21 @@ func main() {
 			}
 			sum.Fail(f.class, f.detail, describe(rc, rtexts))
 		}
+		if len(c.Prelude) > 0 {
+			cc := coqCase(c, lens, o)
+			coqHistCases = append(coqHistCases, "("+coqHist(c.Prelude)+", "+cc[1:])
+			if len(coqHistCases) >= 200 {
+				flushHist()
+			}
+			continue
+		}
 		coqCases = append(coqCases, coqCase(c, lens, o))
 		if len(coqCases) >= 400 {
 			flushShard()
 		}
 	}
 	flushShard()
+	flushHist()
 	sum.Notes = append(sum.Notes, fmt.Sprintf("%d bodies through the real HandleBulkBody + flush + search in %.1fs", len(cases), time.Since(t0).Seconds()))
 	sum.Write(cfg.Out)
 }
